@@ -294,6 +294,9 @@ def rule_a85(ctx, f):
                         full = True
         chunk4 = any(last_seg(F.callee_name(ct)) == "chunks_exact" and F.const_int(ct["args"][1]) == 4 for cb_, ct in F.calls(eb) if len(ct["args"]) > 1)
         okz = okz and full and chunk4
+    consts = sorted({F.const_int(a) for bi, t in F.calls(eb) if last_seg(F.callee_name(t)) == "push" for a in t["args"] if F.const_int(a) is not None})
+    ctx.check(consts == [122], "C16-SIB-a85", "enc::encode_85#shorthands", "the encoder writes the single bytes %s as shorthands: only `z` (four zero bytes) is part of the "
+              "format, anything else is refused by other decoders" % [chr(c) for c in consts if 32 <= c < 127], eb["span"], detail="`z` is the only shorthand")
     ctx.check(okz, "C16-SIB-a85", "enc::encode_85#z", "`z` is emitted outside the full-group loop or without an all-zero test", eb["span"], detail="'z' only for a full [0;4] group")
     # a final group of n < 4 bytes is written as its first n + 1 digits
     efl = Flow(eb)
